@@ -532,6 +532,71 @@ func checkC12(c *Check) {
 			}
 		}
 	}
+	// … required in the sense that counts: the state is handed out (a non-nil first result) only under the fact that the
+	// member is not empty. A test that is merely mentioned (`all four empty` instead of `any one empty`) requires nothing.
+	if getSt != nil && len(reqd) > 0 {
+		tags := redisTags(stStruct)
+		loads := map[string][]ssa.Value{}
+		for _, b := range getSt.Blocks {
+			for _, ins := range b.Instrs {
+				if u, isU := ins.(*ssa.UnOp); isU && u.Op == token.MUL {
+					if _, f, okf := fieldLoad(u); okf && f != nil {
+						if t, has := tags[f.Name()]; has {
+							loads[t] = append(loads[t], u)
+						}
+					}
+				}
+				if fv, isF := ins.(*ssa.Field); isF {
+					if f := fieldOf(fv.X.Type(), fv.Field); f != nil {
+						if t, has := tags[f.Name()]; has {
+							loads[t] = append(loads[t], fv)
+						}
+					}
+				}
+			}
+		}
+		first := true
+		byFact := map[string]bool{}
+		for _, r := range returnsOf(getSt) {
+			if len(r.Results) == 0 {
+				continue
+			}
+			nonNil := false
+			for _, l := range Leaves(r.Results[0], leafOpts{noConcat: true}) {
+				if !isNilConst(l) {
+					nonNil = true
+				}
+			}
+			if !nonNil {
+				continue
+			}
+			fs := FactsOf(getSt).At(r)
+			here := map[string]bool{}
+			for t, ls := range loads {
+				for _, l := range ls {
+					if fs.StrNonEmpty(l) {
+						here[t] = true
+					}
+				}
+			}
+			if first {
+				byFact, first = here, false
+			} else {
+				for t := range byFact {
+					if !here[t] {
+						delete(byFact, t)
+					}
+				}
+			}
+		}
+		if !first {
+			for t := range reqd {
+				if !byFact[t] {
+					delete(reqd, t)
+				}
+			}
+		}
+	}
 	hit := false
 	for k := range del {
 		if reqd[k] {
@@ -833,7 +898,10 @@ func checkC12(c *Check) {
 	// field of the same role (C10.R4) — a constructor that "normalises" one limit by the other disagrees with its sibling
 	if c.ID == "C12" {
 		importObls(c, "C10", checkC10, "C12.R7", func(o *Obligation) bool {
-			return strings.HasPrefix(o.Key, "C10.R4/ctor-field/") || strings.HasPrefix(o.Key, "C10.R4/timeout-written-outside-constructor")
+			return strings.HasPrefix(o.Key, "C10.R4/ctor-field/") || strings.HasPrefix(o.Key, "C10.R4/timeout-written-outside-constructor") ||
+				// … and every memory operation that finds the session refreshes its last-used time, as every Redis operation
+				// re-arms the idle deadline (C10.R1 touch)
+				strings.HasPrefix(o.Key, "C10.R1/touch/")
 		})
 	}
 	// ---- R5
